@@ -16,4 +16,10 @@ PROPS = {
         "trusted": ["strings.ToLower is modelled on ASCII only; non-ASCII input is outside the generators"],
         "assumptions": ["ASCII restriction on case mapping"],
     },
+    "C13": {
+        "engines": ["glob"],
+        "rule": "exhaustive: every (pattern, string) pair over {a,*,\\} up to length 5 (quick) / 7 (thorough) through policy.Like('.', p) + Policy.Match; suite examples and F9 witnesses; seeded random pairs over {a,b,*,\\,.} with strings derived from the pattern",
+        "need_tags": ["like/exh", "like/rnd", "like/corpus"],
+        "trusted": ["the like statement is reached through the identity selector '.' (selector resolution of '.' is covered by C12)"],
+    },
 }
